@@ -42,7 +42,8 @@ EXTENDS PolicyTxnP
 
 CONSTANT Bug
 
-EI == INSTANCE EndpointPolicyI WITH ReuseOnLookup <- FALSE, FabricatedNorm <- FALSE, WildHostCheck <- TRUE
+EI == INSTANCE EndpointPolicyI WITH ReuseOnLookup <- FALSE, FabricatedNorm <- FALSE, WildHostCheck <- TRUE,
+                                     EmptyParam <- FALSE, RejectCollision <- TRUE    \* the URL tree as repaired (2d3f081, 9733f21)
 AI == INSTANCE ActionsI WITH ReqAlphabet <- {}, RespAlphabet <- {}, MaxLen <- 0, Bug <- "none",
                              side <- "req", s <- <<>>, acc <- <<>>
 TI(x) == INSTANCE ThrottleI WITH Remedy <- ThrNames, Group <- GroupSet, W0 <- Cfg.thr.W, WChoices <- WSet,
